@@ -82,3 +82,5 @@ declare_fields('Preprocessor', _symbols='dict[str,PreprocessorSymbol]')
 declare_fields('PreprocessorSymbol', _name='str', _value='str', _line_id='LineIdentifier?')
 declare_fields('ConditionLine', _condition='PreprocessorCondition')
 declare_fields('DefineSymbolLine', _symbol='PreprocessorSymbol')
+declare_fields('InstructionMacroVariant', _variant_config='cfg', _operand_parser='OperandParser?', _variant_num='int')
+declare_fields('InstructionMacro', _config='cfg', _variants='list[InstructionMacroVariant]')
